@@ -37,6 +37,10 @@ class SymCtx:
     # inputs -----------------------------------------------------------------
     def real(self, name, lo=None, hi=None, nonzero=False):
         v = core.fresh_real(name)
+        if not hasattr(self.ex, "input_bounds") or self.ex.input_bounds_owner is not self.ex.cons:
+            self.ex.input_bounds = {}
+            self.ex.input_bounds_owner = self.ex.cons
+        self.ex.input_bounds[name] = (lo, hi)
         cs = []
         if lo is not None:
             cs.append(v.e >= lift(lo))
@@ -191,6 +195,8 @@ class SymCtx:
         elif r == "sat":
             rec["verdict"] = "cex"
             rec["inputs"] = self.model_inputs(m)
+            if getattr(self, "last_raw_inputs", None):
+                rec["inputs_alt"] = self.last_raw_inputs   # the model's own values, before angles were made physical
         else:
             rec["verdict"] = "unknown"
         self.records.append(rec)
@@ -223,7 +229,12 @@ class SymCtx:
                 out[name] = v.as_long()
             else:
                 out[name] = core.z3num_to_float(v)
+        raw = dict(out)
         self._repair_angles(m, out)
+        if raw != out:
+            self.last_raw_inputs = raw
+        else:
+            self.last_raw_inputs = None
         return out
 
     def _repair_angles(self, m, out):
@@ -251,9 +262,17 @@ class SymCtx:
                 continue
             ang = math.atan2(sv, cv)
             model_angle = float(q) * out[name] + float(const)
-            turns = round((model_angle - ang) / core.TAU)
-            ang += turns * core.TAU
-            out[name] = (ang - float(const)) / float(q)
+            lo, hi = getattr(self.ex, "input_bounds", {}).get(name, (None, None))
+            best = None
+            for kk in range(-4, 5):
+                cand = (ang + kk * core.TAU - float(const)) / float(q)
+                if (lo is not None and cand < lo) or (hi is not None and cand > hi):
+                    continue
+                d = abs(cand - out[name])
+                if best is None or d < best[0]:
+                    best = (d, cand)
+            if best is not None:
+                out[name] = best[1]
 
     def witness_inputs(self):
         if self._path_feasible() != "sat":
